@@ -48,13 +48,17 @@ func namedCheck(name string) func(proto.Message) error {
 			if c.Title == "" {
 				return status.Error(codes.NotFound, "untitled")
 			}
+		case "ca": // a code no other branch of a write produces for a stored mode
+			if !c.Normal {
+				return status.Error(codes.Aborted, "only the normal mode")
+			}
 		}
 		return nil
 	}
 }
 
 var tameIcpts = []string{"tp", "ds", "n0", "nk"}
-var checkNames = []string{"cn", "ct", "ok"}
+var checkNames = []string{"cn", "ct", "ca", "ok"}
 
 func (o op) hasCallerCode() bool {
 	return o.HasReset || o.Check != "" || o.Before != "" || o.After != ""
@@ -100,12 +104,17 @@ func (o op) sigKind() string {
 }
 
 // callerOpts are the options carrying the caller's own code and the reset mask.
-func (o op) callerOpts() []resource.WriteOption {
+func (o op) callerOpts() []resource.WriteOption { return o.callerOptsWith(nil) }
+
+// callerOptsWith: park, when given, stands in for the check named "pk" (forced-overlap rounds, forced.go).
+func (o op) callerOptsWith(park func(proto.Message) error) []resource.WriteOption {
 	var opts []resource.WriteOption
 	if o.HasReset {
 		opts = append(opts, resource.WithResetPaths(append([]string{}, o.Reset...)...))
 	}
-	if o.Check != "" {
+	if o.Check == "pk" && park != nil {
+		opts = append(opts, resource.WithExpectedCheck(park))
+	} else if o.Check != "" {
 		opts = append(opts, resource.WithExpectedCheck(namedCheck(o.Check)))
 	}
 	if o.Before != "" {
